@@ -94,7 +94,21 @@ def scan_fx():
     g, d2, e2 = scan_write_guard(src)
     if e2:
         return None, None, e2
-    return (f, g), d1 + "; " + d2, None
+    # shape assertion (no model variant): writeFallback = copy; recycle; send - the recycle precedes the socket send
+    # and does not depend on its outcome (the model's fallback exit of Flush frees the send buffer unconditionally)
+    try:
+        st = gosrc.read("stream.go")
+    except OSError as ex:
+        return None, None, "cannot read stream.go: %s" % ex
+    m = re.search(r"func \(s \*Stream\) writeFallback\([^)]*\) error \{(.*?)\n}\n", st, re.S)
+    if not m:
+        return None, None, "cannot find Stream.writeFallback in stream.go"
+    stmts = [l.strip() for l in strip_comments(m.group(1)).splitlines() if l.strip()]
+    rec = [i for i, l in enumerate(stmts) if l == "s.sendBuf.recycle()"]
+    snd = [i for i, l in enumerate(stmts) if "waitForSend(" in l]
+    if len(rec) != 1 or len(snd) != 1 or rec[0] > snd[0] or any(l.startswith(("if ", "for ", "switch ", "select ")) for l in stmts[:rec[0]] if "range underlyingSlices" not in l):
+        return None, None, "Stream.writeFallback does not recycle the send buffer unconditionally before the socket send (copy; recycle; send is what the model mirrors)"
+    return (f, g), d1 + "; " + d2 + "; writeFallback recycles the send buffer before (and independently of) the socket send", None
 
 
 def write_switch(sw):
@@ -403,6 +417,7 @@ def check(run):
     run.assumptions += [
         "allocation choices and per-slice byte counts are inputs of the model (taken from the real run); the allocator itself is C01/C02's subject",
         "Model/Accounting.v: one label = one API call or one complete run of handlePolling; Model/AccountingConc.v: one label = one critical section (PollOne/LoopAdd/LoopCheck, six steps of Stream.close(), MoveTo, ReadK), one owner thread per stream object, Write/Flush/Release/Reuse atomic",
+        "the fault 'fallback send times out while the session stays alive' is induced by holding the session's socket-write flag (as a blocked writer does) with a 60 ms ConnectionWriteTimeout for the time of one Flush; for the slot accounting it is the same Flush label",
         "concurrent traffic phases: per-stream logs are replayed one stream after the other (valid because the streams do not interact, the queue cannot fill and no slot is reused inside a phase) and compared at the quiescent point; after a racy close phase only the end oracle applies",
         "the harness moves pendingData into recvBuf (what readMore does first) before each read so that reads never block",
         "harness waits poll up to 60 s; a history in which a wait expires is re-run from scratch (fresh sessions, same seed) up to 2 more times; only a wait that expires in all 3 runs is reported, as an oracle failure (C09:peer-never-drains-queue / C09:socket-event-never-reaches-peer)",
